@@ -273,6 +273,7 @@ func main() {
 		o.Count("quote:" + strings.SplitN(obs, "=", 2)[0])
 	}
 	writeGenTable(filepath.Join(c.OutDir, "gentable.json"), cells)
+	writeKindRows(filepath.Join(c.OutDir, "kindrows.json"))
 	phase("matrix emitted")
 	emitSplit(o, gen, rng, c.Thorough())
 	phase("splitter correspondence")
@@ -282,6 +283,7 @@ func main() {
 	phase("wide programs")
 	emitMultiName(o, tmp, gen, rng, c.Thorough())
 	emitBuildFiles(o, tmp, gen)
+	emitRegen(o, tmp, gen)
 	phase("multi-name fields, files outside the default build")
 	if err := o.Close(nil); err != nil {
 		die("%v", err)
@@ -919,10 +921,11 @@ func writeGenTable(path string, cells []*cell) {
 		Rules  string   `json:"rules"`
 		Status string   `json:"status"`
 		Chain  []string `json:"chain"`
+		Raw    string   `json:"raw"` // the text of the schema expression as written in the generated file
 	}
 	rows := make([]row, 0, len(cells))
 	for _, ce := range cells {
-		r := row{Fty: ce.fty, Rules: ce.rules, Status: ce.status}
+		r := row{Fty: ce.fty, Rules: ce.rules, Status: ce.status, Raw: ce.raw}
 		if ce.status != "noparse" {
 			r.Chain = strings.Split(ce.chain, ";")
 		}
